@@ -6,11 +6,14 @@ V="$(cd "$(dirname "${BASH_SOURCE[0]}")/.." && pwd)"
 # harness sources to test with; VERIF_HARNESS_SRC may point at an exported snapshot of a commit so that the
 # working copy can be edited while a long evaluation runs
 HSRC="${VERIF_HARNESS_SRC:-$V/harness}"
+# VERIF_SCRATCH_TAG selects a second, independent set of scratch copies (so that an evaluation can run while a
+# long regression occupies the default set)
+TAG="${VERIF_SCRATCH_TAG:-}"
 
 fam_of() { grep -E "^\s+[C0-9|]+\) echo fam_" "$V/check" | while read -r line; do ids="${line%%)*}"; pkg="${line##*echo }"; pkg="${pkg%% *}"; for i in ${ids//|/ }; do [ "$i" = "$1" ] && echo "$pkg"; done; done; }
 
 scratch_prepare() { # $1 = pkg ; sets S
-  S="/tmp/vscratch-$1"
+  S="/tmp/vscratch$TAG-$1"
   mkdir -p "$S/repo" "$S/harness" "$S/root"
   rsync -rlpgoD --checksum --delete --exclude target --exclude .git /repo/ "$S/repo/"
   rsync -rlpgoD --checksum --delete --exclude 'target*' --exclude /Cargo.toml "$HSRC/" "$S/harness/"
@@ -20,9 +23,9 @@ scratch_prepare() { # $1 = pkg ; sets S
 }
 
 scratch_build() { # $1 = pkg
-  (cd "$S/harness" && CARGO_TARGET_DIR="/tmp/vscratch-target-$1" cargo build --release --offline -p "$1" >"$S/build.log" 2>&1)
+  (cd "$S/harness" && CARGO_TARGET_DIR="/tmp/vscratch-target$TAG-$1" cargo build --release --offline -p "$1" >"$S/build.log" 2>&1)
 }
 
 scratch_run() { # $1 = pkg $2 = id $3 = tier ; prints output, returns rc
-  VERIF_ROOT="$S/root" VERIF_SEED="${VERIF_SEED:-1}" "/tmp/vscratch-target-$1/release/$1" "$2" "$3" 2>&1
+  VERIF_ROOT="$S/root" VERIF_SEED="${VERIF_SEED:-1}" "/tmp/vscratch-target$TAG-$1/release/$1" "$2" "$3" 2>&1
 }
